@@ -153,7 +153,7 @@ class TapeCassette(object):
             return False
 
         if isinstance(match_value, str):
-            return fnmatch(recorded_value, match_value)
+            return isinstance(recorded_value, str) and fnmatch(recorded_value, match_value)
 
         return recorded_value == match_value
 
@@ -161,6 +161,17 @@ class TapeCassette(object):
     def _operator_filter(recorded_value, metadata_value):
         """
         Check if this is an operator metadata filter and its value is in range
+        """
+        try:
+            return TapeCassette._apply_operator(recorded_value, metadata_value)
+        except TypeError:
+            # Values that cannot be ordered against each other never match
+            return False
+
+    @staticmethod
+    def _apply_operator(recorded_value, metadata_value):
+        """
+        Applies the operator of the metadata filter on the recorded value
         """
         result = False
         if metadata_value['operator'] == '=':
